@@ -537,6 +537,32 @@ def hermitian_cases(draw, tier, nmin=1):
     return {"A": np.ascontiguousarray(A, dtype=float), "kind": kind, "sub": sub, "scale_exp": se}
 
 
+@st.composite
+def long_hermitian_cases(draw, tier):
+    """Hermitian matrices of order just past the blocking sizes 32 / 64: dense, banded or block diagonal."""
+    n = draw(st.sampled_from([33, 40, 64, 65] if tier == "quick" else [33, 40, 64, 65, 100, 129]))
+    X, pat = draw(gen.long_qarray(n, n, draw(st.sampled_from(["generic", "int", "sparse"]))))
+    A = herm_from_upper(X)
+    kind = draw(st.sampled_from(["dense", "dense", "banded", "block"]))
+    if kind == "banded":
+        bw = draw(st.sampled_from([1, 2, 5, 31]))
+        idx = np.arange(n)
+        A = A * (np.abs(idx[:, None] - idx[None, :]) <= bw)[..., None]
+    elif kind == "block":
+        c = draw(st.sampled_from([1, 16, 32, n - 1]))
+        A[c:, :c] = 0.0
+        A[:c, c:] = 0.0
+    e = draw(st.sampled_from([0, 0, -6, 6]))
+    return {"A": np.ascontiguousarray(A * 10.0 ** e), "kind": "long:" + kind, "scale_exp": e}
+
+
+def check_long_generated(case):
+    _assert_hermitian_input(case["A"])
+    out = run_case(case["A"], ("tri", "eig"))
+    _labels_of_case(out, case)
+    return out
+
+
 def _labels_of_case(out, case):
     out.label("kind=" + str(case.get("kind")))
     if case.get("sub"):
@@ -842,6 +868,8 @@ PROPERTY = Property(
                budget={"quick": 4000, "thorough": 60000}),
         Clause("eigendecomposition", check_eig_generated, strategy=lambda tier: hermitian_cases(tier, nmin=1),
                budget={"quick": 4000, "thorough": 60000}),
+        Clause("long_dimension", check_long_generated, strategy=long_hermitian_cases, budget={"quick": 16, "thorough": 160},
+               shrink=False),
         Clause("witness_grid", check_witness, enumerate=enum_witnesses, budget={"quick": 0, "thorough": 0}),
         Clause("rejections", check_rejection, strategy=rejection_cases, budget={"quick": 1200, "thorough": 12000}),
         Clause("reflector", check_reflector, strategy=reflector_cases, budget={"quick": 800, "thorough": 8000}),
